@@ -170,7 +170,7 @@ def coq_property_file(pid, deps_timeout=1500, timeout=900):
             ok = rc == 0
         res = {"ok": False, "theorems": theorems, "assumptions": {}, "failed": [], "log": mk_log}
         if not ok:
-            res["failed"] = ["<dependency build>"]
+            res["failed"] = _failing_lemmas(mk_log) or ["<dependency build>"]
             res["failed_detail"] = _first_coq_error(mk_log)
             return res
         rc, o, e = run(["coqc", "-Q", "theories", "SF", "-Q", "gen", "SFGen", "-w",
@@ -202,6 +202,23 @@ def coq_property_file(pid, deps_timeout=1500, timeout=900):
     res["assumptions"] = assum
     res["ok"] = True
     return res
+
+
+def _failing_lemmas(text):
+    """names of the lemmas enclosing each 'File "...", line N' error of a make log"""
+    out = []
+    for m in re.finditer(r'File "\./([^"]+)", line (\d+), characters', text):
+        path = os.path.join(COQ, m.group(1))
+        try:
+            src = open(path).read().split("\n")
+        except OSError:
+            continue
+        pre = "\n".join(src[:int(m.group(2))])
+        ms = list(THEOREM_RE.finditer(pre))
+        nm = "%s:%s" % (os.path.basename(m.group(1)), ms[-1].group(2) if ms else "?")
+        if nm not in out:
+            out.append(nm)
+    return out
 
 
 def _first_coq_error(text):
@@ -291,6 +308,8 @@ class Ctx:
         self.notes = []
         self.trusted = []
         self.distribution = {}
+        self.broken_proofs = []
+        self.found_inputs = []     # (key, text, replay path) of violations that carry a concrete input
         kf = json.load(open(os.path.join(VERIF, "known_findings.json")))
         self.known = {f["key"]: f for f in kf.get("findings", []) if f["property"] == pid}
         self.fixed = [f for f in kf.get("fixed", []) if f["property"] == pid]
@@ -309,6 +328,8 @@ class Ctx:
         with open(path, "w") as f:
             f.write("property: %s\nkey: %s\nwhat: %s\nseed: %d tier: %s\n---\n%s\n" % (self.pid, key, text, self.seed, self.tier, replay_content))
         self.violations.append((key, text, path))
+        if found_input:
+            self.found_inputs.append((key, text, path))
         tail = "" if found_input else " no-failing-input-found"
         print("VIOLATION property=%s replay=%s%s" % (self.pid, path, tail), flush=True)
         log("  -> " + text)
@@ -341,7 +362,31 @@ class Ctx:
             self.discharged += res["theorems"]
         self.assumptions.update(res["assumptions"])
 
+    def report_broken_proofs(self):
+        for thm, detail, search in self.broken_proofs:
+            found = None
+            if search:
+                try:
+                    found = search()
+                except Exception as ex:   # the search is best effort
+                    log("search failed: %r" % ex)
+            body = "broken obligation: %s (reached from coq/theories/Properties_%s.v)\n%s\n" % (thm, self.pid, detail)
+            if found and found[0]:
+                self.violation("proof:" + thm, "proof obligation %s no longer checks; failing input: %s" % (thm, found[1]), body + found[2])
+            elif self.found_inputs:
+                body += "\nfailing inputs found by this run's correspondence / oracle runs:\n" + "\n".join(
+                    "  %s: %s (replay %s)" % f for f in self.found_inputs)
+                try:
+                    body += "\n\n" + open(self.found_inputs[0][2]).read()
+                except OSError:
+                    pass
+                self.violation("proof:" + thm, "proof obligation %s no longer checks; failing input found (%s)" % (thm, self.found_inputs[0][1][:200]), body)
+            else:
+                self.violation("proof:" + thm, "proof obligation %s no longer checks" % thm, body, found_input=False)
+        self.broken_proofs = []
+
     def finish(self, checker_cmd):
+        self.report_broken_proofs()
         ev_total = sum(t["evaluations"] for t in self.ties)
         dn_total = sum(t["distinct_nontrivial"] for t in self.ties)
         axioms = sorted(set(v for v in self.assumptions.values()))
@@ -377,23 +422,55 @@ class Ctx:
 
 
 def proof_step(ctx, search=None):
-    """Compile Properties_<pid>.v; on failure run `search` (callable returning (found, text, replay)) and
-    report the broken obligation."""
+    """Compile Properties_<pid>.v.  A broken obligation is recorded; it is reported at the end of the
+    check (Ctx.finish) together with the failing input the ties / oracles found, or as
+    no-failing-input-found if they found none.  `search`: optional extra callable run at that point,
+    returning (found, text, replay_content)."""
     res = coq_property_file(ctx.pid)
     ctx.proofs(res)
     if not res["ok"]:
-        thm = ",".join(res["failed"])
-        detail = res.get("failed_detail", "")
-        found = None
-        if search:
-            try:
-                found = search()
-            except Exception as ex:   # the search is best effort
-                log("search failed: %r" % ex)
-        if found and found[0]:
-            ctx.violation("proof:" + thm, "proof obligation %s no longer checks; failing input found: %s" % (thm, found[1]), found[2])
-        else:
-            ctx.violation("proof:" + thm, "proof obligation %s no longer checks" % thm,
-                          "broken obligation: theorem %s in coq/theories/Properties_%s.v\n%s" % (thm, ctx.pid, detail),
-                          found_input=False)
+        ctx.broken_proofs.append((",".join(res["failed"]), res.get("failed_detail", ""), search))
     return res
+
+
+# ------------------------------------------------------------------------------------------
+# K tie: harness output lines "<kernel> <input...> <output>" re-computed by the extracted model
+
+def k_tie(ctx, name, harness_cmd, model_bin, rule, exhaustive=False, key=None, timeout=1500,
+          mismatch_is_violation=True, sample_n=4):
+    """Runs `harness_cmd` (shell string), stores its lines, feeds them to the model driver.
+    Returns (n, bad, mismatches).  Each mismatch is a failing input of the correspondence."""
+    tmpd = os.path.join(BUILD, "tmp")
+    os.makedirs(tmpd, exist_ok=True)
+    f = os.path.join(tmpd, "%s_%s_%d.lines" % (ctx.pid, name, os.getpid()))
+    rc, out, err = run("%s > %s" % (harness_cmd, f), timeout=timeout)
+    if rc != 0:
+        ctx.violation((key or name) + ":harness", "harness %s failed (rc=%d): %s" % (name, rc, err[-1500:]),
+                      "command: %s\nstderr:\n%s" % (harness_cmd, err[-4000:]))
+        return 0, 0, []
+    rc, out, err = run("%s < %s" % (model_bin, f), timeout=timeout)
+    m = re.search(r"DONE (\d+) (\d+)", out)
+    if rc != 0 or not m:
+        ctx.violation((key or name) + ":model", "model driver for %s failed: %s" % (name, (out + err)[-1500:]),
+                      "command: %s < %s\n%s" % (model_bin, f, (out + err)[-4000:]), found_input=False)
+        return 0, 0, []
+    n, bad = int(m.group(1)), int(m.group(2))
+    mism = [l for l in out.split("\n") if l.startswith("MISMATCH")]
+    rc2, o2, e2 = run("rev %s | cut -d' ' -f2- | rev | sort -u | wc -l" % f)
+    try:
+        distinct = int(o2.strip())
+    except ValueError:
+        distinct = 0
+    rc3, o3, e3 = run("awk 'NR%%%d==1' %s | head -%d" % (max(1, n // max(1, sample_n)), f, sample_n))
+    ctx.add_samples(["%s: %s" % (name, l) for l in o3.strip().split("\n") if l], cap=sample_n)
+    ctx.tie(name, "K", n, distinct, rule + " (distinct = distinct (kernel,input) pairs)", exhaustive=exhaustive, mismatches=bad)
+    try:
+        os.unlink(f)
+    except OSError:
+        pass
+    if bad and mismatch_is_violation:
+        ctx.violation((key or name) + ":mismatch",
+                      "%d of %d evaluations of %s disagree with the model (which the theorems relate to the definition); first: %s"
+                      % (bad, n, name, mism[0] if mism else "?"),
+                      "correspondence: %s\nharness: %s\nmismatching inputs (kernel input impl model):\n%s" % (name, harness_cmd, "\n".join(mism)))
+    return n, bad, mism
